@@ -27,5 +27,8 @@ RecOK(r) ==
     [] r.kind = "len"    -> r.got = Len(Want(r))
     [] r.kind = "index"  -> \A j \in 1..Len(r.idx) : r.idx[j][2] = IdxSpec(Want(r), r.idx[j][1])
     [] r.kind = "slice"  -> r.got = SliceSpec(Want(r), r.lo, r.hi)
+    \* byValue: r.nvs the values and r.min the bound as numbers (in units of 1/r.scale for the float families)
+    [] r.kind = "byvalue" -> LET w == ByValueSpec(r.cs, r.nvs, r.min, r.norm = 1, r.scale)
+                             IN r.got = [j \in 1..Len(w) |-> <<w[j][1], w[j][2]>>]
 JOK == RecOK(Recs[i]) \/ (PrintT(<<"BAD", ToJson(i)>>) = FALSE)
 =============================================================================
